@@ -587,7 +587,7 @@ _SAMPLED = set()
 
 def run_case(rec, rng, only=None, rngkey=None):
     _CUR["rngkey"] = rngkey
-    args = {"n": rng.choice((1, 2, 3)), "m": 2}
+    args = real.call_args_model(rng.choice((1, 2, 3)), 2)
     total = sum(w for _, w in SCENARIOS)
     r = rng.random() * total
     for fn, w in SCENARIOS:
